@@ -6,3 +6,4 @@ pub mod secp;
 pub mod codec;
 pub mod bip32;
 pub mod script_tok;
+pub mod wire;
